@@ -15,7 +15,7 @@ uint64_t g_key_obj, g_key_off; int64_t g_key_rank;
 uint64_t g_lb[4]; uint64_t g_lb_calls; _Bool g_unregistered_read; uint64_t g_lg;
 _Bool g_has; uint64_t g_wit; uint64_t pre_ncmp; _Bool pre_ss_small, pre_ss_has; uint64_t pre_ss_size, pre_erased_idx;
 #ifdef HAVE_pair_pE_b
-struct aset g_as[2]; uint64_t g_as_nctor, g_as_ndtor;
+struct aset g_as[2]; uint64_t g_as_nctor, g_as_ndtor; uint64_t pre_as0_n, pre_as1_n; _Bool pre_as0_has, pre_as1_has;
 struct aset nondet_aset(void);
 #endif
 int64_t nondet_i64(void);
@@ -30,7 +30,7 @@ static void l0_havoc_sets(void) {
   g_has = nondet_bool(); g_wit = nondet_u64(); if (!g_has) g_wit = ~(uint64_t)0;
   pre_ss_small = nondet_bool(); pre_ss_has = nondet_bool(); pre_ss_size = nondet_u64(); pre_erased_idx = nondet_u64();
 #ifdef HAVE_pair_pE_b
-  g_as[0] = nondet_aset(); g_as[1] = nondet_aset(); g_as_nctor = 0; g_as_ndtor = 0;
+  g_as[0] = nondet_aset(); g_as[1] = nondet_aset(); g_as_nctor = 0; g_as_ndtor = 0; pre_as0_n = nondet_u64(); pre_as1_n = nondet_u64(); pre_as0_has = nondet_bool(); pre_as1_has = nondet_bool();
   __CPROVER_assume(g_as[0].n < (1UL << 16) && g_as[1].n < (1UL << 16));
 #endif pre_ncmp = nondet_u64();
 }
